@@ -59,16 +59,15 @@ Qed.
 Lemma dsl_cycP_of_pres : forall (r : dsl_pres * dsl_store), fst r <> PrAbort DaCycle -> dsl_cycP (dsl_lift (fst r), snd r).
 Proof. intros [p s] N H. cbn in *. destruct p; cbn in H; try discriminate. inversion H; subst. congruence. Qed.
 
-Lemma dsl_isect_args_nc : forall st rest a r al, dsl_isect_args st rest a r al <> LrAbort DaCycle.
+Lemma dsl_isect_args_nc : forall st rest a r, dsl_isect_args st rest a r <> LrAbort DaCycle.
 Proof.
-  induction rest as [|x t IH]; intros a r al H; [discriminate H|].
+  induction rest as [|x t IH]; intros a r H; [discriminate H|].
   cbn [dsl_isect_args] in H.
   destruct (dsl_sorted a); [|destruct (dsl_mixed_throws a); discriminate].
   destruct (dsl_to_arrptr st x); try discriminate.
   destruct (dsl_sorted xs); [|destruct (dsl_mixed_throws xs); discriminate].
-  destruct (_ && _); [discriminate|].
   destruct (_ && _); [destruct (dsl_mixed_throws _); discriminate|].
-  exact (IH _ _ _ H).
+  exact (IH _ _ H).
 Qed.
 
 Ltac cyc_step :=
@@ -128,11 +127,11 @@ Proof.
 Qed.
 
 Lemma dsl_cycP_isect : forall st rest xs,
-  dsl_cycP (match dsl_isect_args st rest xs [] false with
+  dsl_cycP (match dsl_isect_args st rest xs [] with
             | LrOk r => dsl_new_arr st r | LrErr => dsl_err DkType st | LrAbort r => (DrAbort r, st) end).
 Proof.
-  intros st rest xs H. destruct (dsl_isect_args st rest xs [] false) eqn:E; try discriminate H.
-  cbn in H. inversion H; subst. exfalso. exact (dsl_isect_args_nc _ _ _ _ _ E).
+  intros st rest xs H. destruct (dsl_isect_args st rest xs []) eqn:E; try discriminate H.
+  cbn in H. inversion H; subst. exfalso. exact (dsl_isect_args_nc _ _ _ _ E).
 Qed.
 
 Lemma dsl_cycP_match_go : forall st mode (m1 : string -> option bool) xs,
